@@ -43,7 +43,7 @@ def main(a):
             failed = sorted(set(re.findall(r"^FAILED (\S+)", outs, re.M)))
             base = json.load(open("/root/.vp/BASELINE.json"))
             exp = sorted("tests/" + x.split("::")[0].split(".")[1] + ".py::" + x.split("::")[1] for x in base["always_fail"])
-            res["suite_same_failures_as_baseline"] = failed <= exp        # every baseline-stable test still passes (later fixes made 4 of the 36 environment failures pass)
+            res["suite_same_failures_as_baseline"] = set(failed) <= set(exp)        # every baseline-stable test still passes (later fixes made 4 of the 36 environment failures pass)
     finally:
         subprocess.run(["git", "-C", "/repo", "worktree", "remove", "--force", wt])
     ok = res["demo_without_patch_exit"] == 0 and res["demo_with_patch_exit"] != 0 and res["imports_with_patch"] and (not suite or res.get("suite_same_failures_as_baseline"))
